@@ -223,6 +223,11 @@ impl<K: Hash + Eq, V, FH: BuildHasher, RH: BuildHasher> SegmentedCache<K, V, FH,
 
     /// `put_protected` will force to put an entry in protected LRU
     pub fn put_protected(&mut self, k: K, v: V) -> PutResult<K, V> {
+        // a key that sits in the probationary segment must move, otherwise it would be held
+        // in both segments; updating it promotes it to the protected segment
+        if self.probationary.contains(&k) {
+            return self.put(k, v);
+        }
         self.protected.put(k, v)
     }
 
